@@ -1,5 +1,83 @@
+(* C45: TLS handshake messages round-trip and parse safely.  Property theorems only.
+   marshal_X / unmarshal_X are the byte-level models of bfe_tls *Msg.marshal / *Msg.unmarshal and of
+   sessionState.marshal/unmarshal; unmarshal returns Ok v (Go: true, fields v), Bad (Go: false) or Fuel
+   (loop fuel exhausted; never happens, see C45_unmarshal_total).  All slicing in the model is checked,
+   so a Go read outside the message (a panic on the exact-capacity slice the harness passes) would be a
+   disagreement with the model.  wf_* (coq/run/RunC45.v) are the "values within field widths". *)
 From Coq Require Import List ZArith Bool.
-From Bfe Require Import lib.Val lib.Bytes model.TlsMsgs run.RunC45.
-Theorem C45_tmp : run_C45 (VZ 0) = VErr 0.
-Proof. reflexivity. Qed.
-Print Assumptions C45_tmp.
+From Bfe Require Import lib.Val lib.Bytes model.TlsMsgs proofs.TlsMsgsProofs run.RunC45.
+Import ListNotations.
+Open Scope Z_scope.
+
+(* ClientHello with every extension BFE knows (NPN, server_name, status_request, supported curves /
+   point formats, session ticket, signature algorithms, renegotiation_info, ALPN): parsing the
+   marshalled bytes gives back the same message (ch_parsed m = m with padding := false and
+   extensionIds := the extension ids marshal wrote; clientHelloMsg.equal ignores these two).
+   wf_ch requires: 16-bit version/suites/curves/sigalgs, 32-byte random, session id <= 32, compression
+   and point lists < 256, ALPN names 1..255 bytes, no ticket bytes without ticketSupported, every
+   extension and the extension block < 2^16 bytes, and secureRenegotiation = true whenever the suite list
+   contains the renegotiation SCSV 0x00ff (the SCSV is the same signal as the extension).
+   True after /repo fix 36ca57a (unmarshal matched 0xff02 instead of renegotiation_info 0xff01). *)
+Theorem C45_roundtrip_client_hello : forall m,
+  wf_ch m = true -> unmarshal_ch (marshal_ch m) = Ok (ch_parsed m).
+Proof. exact roundtrip_ch. Qed.
+Print Assumptions C45_roundtrip_client_hello.
+
+(* ServerHello (NPN list, status_request, session ticket, renegotiation_info, ALPN). *)
+Theorem C45_roundtrip_server_hello : forall m,
+  wf_sh m = true -> unmarshal_sh (marshal_sh m) = Ok m.
+Proof. exact roundtrip_sh. Qed.
+Print Assumptions C45_roundtrip_server_hello.
+
+(* Certificate: every certificate 1..2^24-1 bytes (RFC 5246 ASN.1Cert<1..2^24-1>), list < 2^24 bytes. *)
+Theorem C45_roundtrip_certificate : forall certs,
+  forallb (wf_str 1 16777216) certs = true -> blen (flat_map enc_cert24 certs) < 16777216 ->
+  unmarshal_cert (marshal_cert certs) = Ok certs.
+Proof. exact roundtrip_cert. Qed.
+Print Assumptions C45_roundtrip_certificate.
+
+(* sessionState (the plaintext of a session ticket). *)
+Theorem C45_roundtrip_session_state : forall s,
+  wf_ss s = true -> unmarshal_ss (marshal_ss s) = Ok s.
+Proof. exact roundtrip_ss. Qed.
+Print Assumptions C45_roundtrip_session_state.
+
+Theorem C45_roundtrip_new_session_ticket : forall t,
+  blen t < 65536 -> unmarshal_nst (marshal_nst t) = Ok t.
+Proof. exact roundtrip_nst. Qed.
+Print Assumptions C45_roundtrip_new_session_ticket.
+
+(* Finished: any verify_data (the parser ignores the length field, marshal writes only its low byte). *)
+Theorem C45_roundtrip_finished : forall v, unmarshal_fin (marshal_fin v) = Ok v.
+Proof. exact roundtrip_fin. Qed.
+Print Assumptions C45_roundtrip_finished.
+
+Theorem C45_roundtrip_server_key_exchange : forall k, unmarshal_ske (marshal_ske k) = Ok k.
+Proof. exact roundtrip_ske. Qed.
+Print Assumptions C45_roundtrip_server_key_exchange.
+
+Theorem C45_roundtrip_client_key_exchange : forall k,
+  blen k < 16777216 -> unmarshal_cke (marshal_cke k) = Ok k.
+Proof. exact roundtrip_cke. Qed.
+Print Assumptions C45_roundtrip_client_key_exchange.
+
+Theorem C45_roundtrip_certificate_status : forall ty resp,
+  0 <= ty < 256 -> blen resp < 16777212 -> (ty = 1 \/ resp = []) ->
+  unmarshal_cs (marshal_cs ty resp) = Ok (ty, resp).
+Proof. exact roundtrip_cs. Qed.
+Print Assumptions C45_roundtrip_certificate_status.
+
+Theorem C45_roundtrip_certificate_verify : forall (has : bool) sah sg,
+  (if has then 0 <= sah < 65536 else sah = 0) -> blen sg < 65536 ->
+  unmarshal_cv has (marshal_cv has sah sg) = Ok (sah, sg).
+Proof. exact roundtrip_cv. Qed.
+Print Assumptions C45_roundtrip_certificate_verify.
+
+(* Non-vacuity: a ClientHello using all nine extensions is within the widths and round-trips. *)
+Example C45_client_hello_example :
+  wf_ch ch_example = true /\ length (ch_exts ch_example) = 9%nat /\
+  unmarshal_ch (marshal_ch ch_example) = Ok (ch_parsed ch_example).
+Proof. exact ch_example_ok. Qed.
+Example C45_server_hello_example :
+  wf_sh sh_example = true /\ length (sh_exts sh_example) = 5%nat.
+Proof. exact sh_example_ok. Qed.
